@@ -2,6 +2,8 @@
    Statements are those of Props/C12.v:
      avail_fix_full (avail_fix, avail_fix_fresh: corollaries), passes_frame, ecallterm_idem, rerun_live,
      diags_ignore_udef.
+   Also, for Props/C06.v: edgeless_two_sweeps (the value analysis of a graph without edges returns after
+   two sweeps).
    The liveness statement without a hypothesis is FALSE of the model (`live_fix_counterexample`: a
    call site whose label maps to a function id without a function is skipped by `live_node`, so its
    live_out is never set); Props/C12.v states it under `calls_resolved`, proved as `live_fix_partial`. *)
@@ -1321,3 +1323,132 @@ Qed.
 
 Theorem avail_fix_fresh : forall g g', fresh_avail g -> avail_pass g = Ok g' -> AvailEqns g'.
 Proof. intros g g' _ H. exact (avail_fix_full g g' H). Qed.
+
+(* ---------------------------------------------------------------------------------- *)
+(* C06: a graph without edges is finished after two sweeps - the first visits every node and gives it
+   the facts of its transfer from empty ins, the second changes nothing and meets no new node.
+   (With empty ins the transfer of a node does not depend on its old memory outs.) *)
+
+Lemma transfer_nil_cn c c' : cn c = cn c' -> avail_transfer c [] [] = avail_transfer c' [] [].
+Proof.
+  destruct c as [n l1 t1 nx1 pv1 f1 ri1 ro1 mi1 mo1 li1 lo1 u1], c' as [n' l2 t2 nx2 pv2 f2 ri2 ro2 mi2 mo2 li2 lo2 u2].
+  cbn [cn]. intros <-.
+  unfold avail_transfer, known_ecall_signature, known_ecall. cbn [set_avail cn rin rout min mout].
+  unfold rule_pull_value_from_csr_memory.
+  destruct n; cbn [reads_from_memory]; try reflexivity.
+  (* a load: with empty ins its base register never holds the address of a csr *)
+  match goal with |- context [rm_get (wv rs1) ?X] =>
+    assert (K : match rm_get (wv rs1) X with Some (AValueInCsr _) => False | _ => True end);
+    [ | destruct (rm_get (wv rs1) X) as [[]|]; try reflexivity; contradiction ] end.
+  cbn. destruct (wv rd =? 0)%N; cbn; [exact I|]. rewrite !N.eqb_refl. cbn. rewrite ?N.eqb_refl. cbn.
+  destruct (wv rd =? wv rs1)%N; exact I.
+Qed.
+
+Definition edgeless (g : list cnode) : Prop := forall i c, nth_opt g i = Some c -> prevs c = [].
+
+(* the node has no predecessor and holds the facts of its transfer from empty ins *)
+Definition settled (c : cnode) : Prop :=
+  prevs c = [] /\ rin c = [] /\ min c = [] /\
+  rout c = fst (avail_transfer c [] []) /\ mout c = snd (avail_transfer c [] []).
+
+Lemma rm_eqb_refl a : rm_eqb a a = true.
+Proof. apply rm_eqb_norm. reflexivity. Qed.
+Lemma mm_eqb_refl a : mm_eqb a a = true.
+Proof. apply mm_eqb_norm. reflexivity. Qed.
+
+Lemma an_nil g vis c : prevs c = [] ->
+  an_ri g vis c = [] /\ an_mi g vis c = [] /\ an_T g vis c = avail_transfer c [] [].
+Proof.
+  intros P. unfold an_T, an_ri, an_mi, meet_regs, meet_mems. rewrite P. cbn [filter]. repeat split.
+Qed.
+
+Lemma upd_fix {A} (l : list A) i f x : nth_opt l i = Some x -> f x = x -> upd l i f = l.
+Proof.
+  revert i; induction l as [|a l IH]; intros [|i] H E; simpl in *; try discriminate.
+  - inversion H; subst. now rewrite E.
+  - f_equal. apply (IH i H E).
+Qed.
+
+Lemma set_avail_self c : set_avail c (rin c) (rout c) (min c) (mout c) = c.
+Proof. destruct c; reflexivity. Qed.
+
+(* one node of an edgeless graph: it becomes settled, the settled nodes stay what they are *)
+Lemma avail_node_edgeless g vis i g' ch :
+  edgeless g -> avail_node g vis i = (g', ch) ->
+  edgeless g' /\ length g' = length g /\
+  (forall j c, nth_opt g j = Some c -> settled c -> nth_opt g' j = Some c) /\
+  (forall c, nth_opt g' i = Some c -> settled c).
+Proof.
+  intros Eg H. destruct (getn g i) as [c|] eqn:E.
+  2:{ unfold avail_node in H. rewrite E in H. inversion H; subst g'. split; [exact Eg|]. split; [reflexivity|].
+      split; [auto|]. intros c Ec. unfold getn in E. congruence. }
+  pose proof (Eg i c E) as P. destruct (an_nil g vis c P) as [A [B T]].
+  rewrite (avail_node_some g vis i c E), A, B, T in H. apply pair_equal_spec in H. destruct H as [<- _].
+  set (c' := set_avail c [] (fst (avail_transfer c [] [])) [] (snd (avail_transfer c [] []))).
+  assert (S' : settled c').
+  { unfold settled, c'. cbn [set_avail prevs rin min rout mout]. split; [exact P|]. split; [reflexivity|].
+    split; [reflexivity|]. rewrite (transfer_nil_cn (set_avail c [] _ [] _) c eq_refl). split; reflexivity. }
+  assert (Ni : nth_opt (upd g i (fun x => set_avail x [] (fst (avail_transfer c [] [])) [] (snd (avail_transfer c [] [])))) i
+               = Some c').
+  { rewrite nth_opt_upd_same. unfold getn in E. rewrite E. reflexivity. }
+  split; [|split; [apply upd_length|split]].
+  - intros j d Ed. destruct (Nat.eq_dec j i) as [->|N].
+    + rewrite Ni in Ed. inversion Ed; subst d. apply S'.
+    + rewrite (nth_opt_upd_other _ _ _ _ N) in Ed. apply (Eg j d Ed).
+  - intros j d Ed Sd. destruct (Nat.eq_dec j i) as [->|N]; [|rewrite (nth_opt_upd_other _ _ _ _ N); exact Ed].
+    rewrite Ni. unfold getn in E. rewrite E in Ed. inversion Ed; subst d. f_equal. unfold c'.
+    destruct Sd as [_ [S1 [S2 [S3 S4]]]].
+    transitivity (set_avail c (rin c) (rout c) (min c) (mout c)); [|apply set_avail_self].
+    rewrite S1, S2, S3, S4. reflexivity.
+  - intros d Ed. rewrite Ni in Ed. inversion Ed; subst d. exact S'.
+Qed.
+
+Lemma avail_sweep_edgeless idx : forall g vis ch g' vis' ch',
+  edgeless g -> avail_sweep idx g vis ch = (g', vis', ch') ->
+  edgeless g' /\ length g' = length g /\
+  (forall j c, nth_opt g j = Some c -> settled c -> nth_opt g' j = Some c) /\
+  (forall i c, In i idx -> nth_opt g' i = Some c -> settled c).
+Proof.
+  induction idx as [|i idx IH]; intros g vis ch g' vis' ch' Eg H; simpl in H.
+  - inversion H; subst. split; [exact Eg|]. split; [reflexivity|]. split; [auto|]. intros i c [].
+  - destruct (avail_node g vis i) as [g1 c1] eqn:E.
+    destruct (avail_node_edgeless g vis i g1 c1 Eg E) as [E1 [L1 [K1 S1]]].
+    destruct (IH _ _ _ _ _ _ E1 H) as [E2 [L2 [K2 S2]]].
+    split; [exact E2|]. split; [congruence|]. split; [intros j c Ec Sc; apply K2; [apply K1; assumption|exact Sc]|].
+    intros j c [<-|I] Ec; [|apply (S2 j c I Ec)].
+    destruct (nth_opt g1 i) as [d|] eqn:Ed.
+    + pose proof (S1 d eq_refl) as Sd. rewrite (K2 i d Ed Sd) in Ec. inversion Ec; subst c. exact Sd.
+    + apply nth_opt_none_ge in Ed. apply nth_opt_some_lt in Ec. lia.
+Qed.
+
+(* a sweep over settled nodes that have all been visited changes nothing *)
+Lemma avail_sweep_settled idx : forall g vis,
+  (forall i c, nth_opt g i = Some c -> settled c) -> (forall i, In i idx -> memn i vis = true) ->
+  exists vis', avail_sweep idx g vis false = (g, vis', false).
+Proof.
+  induction idx as [|i idx IH]; intros g vis Sg V; simpl; [eexists; reflexivity|].
+  assert (N : avail_node g vis i = (g, false)).
+  { destruct (getn g i) as [c|] eqn:E; [|unfold avail_node; rewrite E; reflexivity].
+    destruct (Sg i c E) as [P [S1 [S2 [S3 S4]]]]. destruct (an_nil g vis c P) as [A [B T]].
+    rewrite (avail_node_some g vis i c E), A, B, T. f_equal.
+    - apply (upd_fix g i _ c E).
+      transitivity (set_avail c (rin c) (rout c) (min c) (mout c)); [|apply set_avail_self].
+      rewrite S1, S2, S3, S4. reflexivity.
+    - rewrite S1, S2, <- S3, <- S4, !rm_eqb_refl, !mm_eqb_refl. reflexivity. }
+  rewrite N, (V i (or_introl eq_refl)). cbn [orb negb].
+  apply IH; [exact Sg|]. intros j Ij. rewrite memn_ins, (V j (or_intror Ij)). apply orb_true_r.
+Qed.
+
+Theorem edgeless_two_sweeps : forall fuel g,
+  (forall i c, nth_opt g i = Some c -> prevs c = []) -> exists g', avail_loop (S (S fuel)) g [] = Ok g'.
+Proof.
+  intros fuel g Eg. cbn [avail_loop].
+  destruct (avail_sweep (seq 0 (length g)) g [] false) as [[g1 v1] c1] eqn:E1.
+  destruct c1; [|exists g1; reflexivity].
+  destruct (avail_sweep_edgeless _ _ _ _ _ _ _ Eg E1) as [_ [L1 [_ S1]]].
+  destruct (avail_sweep_settled (seq 0 (length g1)) g1 v1) as [v2 E2].
+  - intros i c Ec. apply (S1 i c); [|exact Ec]. apply in_seq. apply nth_opt_some_lt in Ec. lia.
+  - intros i Ii. rewrite (avail_sweep_vis _ _ _ _ _ _ _ E1 i), memn_seq. rewrite L1 in Ii. apply in_seq in Ii.
+    apply orb_true_iff. left. apply andb_true_iff. split; [apply Nat.leb_le; lia|apply Nat.ltb_lt; lia].
+  - rewrite E2. exists g1. reflexivity.
+Qed.
